@@ -353,6 +353,28 @@ func c14EvalInner(cs c14Case) (string, string) {
 		if diff.Sign() < 0 || diff.Cmp(one) >= 0 {
 			return "C14/udecimal-write-value", fmt.Sprintf("%s at scale %d written as %q", d, sc, txt)
 		}
+	case "dec-holder":
+		// a holder prepared with the scale of the field reads a canonical text and writes it back
+		sc, _ := strconv.Atoi(cs.F)
+		v := quickfix.FIXDecimal{Scale: int32(sc)}
+		if cs.Prev != "" {
+			_ = v.Read([]byte(cs.Prev))
+		}
+		if err := v.Read([]byte(cs.Text)); err != nil {
+			return "C14/decimal-rejects-valid", fmt.Sprintf("%q: %v", cs.Text, err)
+		}
+		if w := string(v.Write()); w != cs.Text {
+			return "C14/decimal-canonical-roundtrip", fmt.Sprintf("holder with scale %d read %q and wrote back %q", sc, cs.Text, w)
+		}
+		u := quickfix.FIXUDecimal{Scale: uint8(sc)}
+		if !strings.HasPrefix(cs.Text, "-") {
+			if err := u.Read([]byte(cs.Text)); err != nil {
+				return "C14/udecimal-rejects-valid", fmt.Sprintf("%q: %v", cs.Text, err)
+			}
+			if w := string(u.Write()); w != cs.Text {
+				return "C14/udecimal-canonical-roundtrip", fmt.Sprintf("holder with scale %d read %q and wrote back %q", sc, cs.Text, w)
+			}
+		}
 	case "str-rt":
 		var s quickfix.FIXString
 		s.Read([]byte(cs.Text))
@@ -401,7 +423,7 @@ func runC14(c *core.Ctx) {
 	} else {
 		c.SetDeadline(40 * time.Minute)
 	}
-	c.SetRule("int: all strings <= L over {0,1,9,-,+,space,.,e,a}; float: all strings <= L over {0,1,9,.,-,+,e,E,space,x,_,n,i} plus every letter-case and sign variant of inf/infinity/nan; every text read into a fresh variable and into one that had read another value (timestamps: one of each precision) before; boolean: all strings <= 2 over all 256 bytes; timestamp: ~40 canonical texts x every single and double position x 14 replacement characters, plus truncations and extensions; round trips over value grids (ints, floats k/2^n and shortest-repr corner cases, timestamps x precision x zone, decimals/udecimals x scale 0..6); hand-written recognisers of the FIX grammars as oracle")
+	c.SetRule("int: all strings <= L over {0,1,9,-,+,space,.,e,a}; float: all strings <= L over {0,1,9,.,-,+,e,E,space,x,_,n,i} plus every letter-case and sign variant of inf/infinity/nan; every text read into a fresh variable and into one that had read another value (timestamps: one of each precision) before; boolean: all strings <= 2 over all 256 bytes; timestamp: ~40 canonical texts x every single and double position x 14 replacement characters, plus truncations and extensions; round trips over value grids (ints, floats k/2^n and shortest-repr corner cases, timestamps x precision x zone, decimals/udecimals x scale 0..6, canonical decimal texts read into a holder prepared with the field's scale and written back); hand-written recognisers of the FIX grammars as oracle")
 	c.Assume("integers that do not fit int64 and seconds=60 are outside the domain", "float texts with a missing integer or fraction part ('.5', '5.') are not judged",
 		"no random sampling beyond the length bound (the statement's 'randomly beyond' is not covered)")
 	jobs := make(chan c14Case, 8192)
@@ -415,7 +437,7 @@ func runC14(c *core.Ctx) {
 			for cs := range jobs {
 				prevs := c14Prev[cs.Kind]
 				if prevs == nil {
-					prevs = []string{""}
+					prevs = []string{cs.Prev}
 				}
 				for _, pv := range prevs {
 					cs.Prev = pv
@@ -552,6 +574,13 @@ func runC14(c *core.Ctx) {
 				jobs <- c14Case{Kind: "dec-rt", A: a, B: b, F: strconv.Itoa(sc)}
 				jobs <- c14Case{Kind: "udec-rt", A: a, B: b, F: strconv.Itoa(sc)}
 			}
+		}
+	}
+	for _, a := range []int64{0, 1, 5, 15, 150, 999, 1000, 123456, 5000000, -1, -15, -150, -999999} {
+		for sc := 0; sc <= 6; sc++ {
+			txt := decimal.New(a, -int32(sc)).StringFixed(int32(sc))
+			jobs <- c14Case{Kind: "dec-holder", Text: txt, F: strconv.Itoa(sc)}
+			jobs <- c14Case{Kind: "dec-holder", Text: txt, F: strconv.Itoa(sc), Prev: "77.125"}
 		}
 	}
 	for _, s := range []string{"", "A", "a=b", "\x00\xff", "multi word", strings.Repeat("x", 5000)} {
